@@ -1,11 +1,39 @@
-//! C15: not built yet
+//! C15: retained messages (S4)
+use super::s4common::{self, Plan};
 use super::{Meta, Prop};
 use crate::common::{Ctx, Stats};
+#[allow(unused_imports)]
+use crate::sub::s4drive::{base_profile, Stepping, Weights};
+#[allow(unused_imports)]
+use rumqttd::Strategy;
 
-fn run(_ctx: &Ctx) -> Stats {
-    let mut s = Stats::default();
-    s.inconclusive.push("check not built yet".into());
-    s
+pub fn plan() -> Plan {
+    let mut p = base_profile("c15-retained");
+    p.retain_pm = 500;
+    p.w.subscribe = 16;
+    p.w.unsubscribe = 4;
+    p.topics = vec!["a", "a/b", "a/c", "b", "a/b/c"];
+    p.burst_pm = 10;
+    p.shared_pm = 100;
+    p.persistent_pm = 100;
+    let mut single = p.clone();
+    single.name = "c15-single";
+    single.stepping = Stepping::Single;
+    let profiles = vec![p, single];
+    Plan {
+        profiles,
+        directed: vec![],
+        quick_histories: 500,
+        thorough_histories: 80000,
+    }
+}
+
+fn run(ctx: &Ctx) -> Stats {
+    s4common::run(ctx, &plan())
+}
+
+fn replay(ctx: &Ctx, doc: &serde_json::Value) -> Stats {
+    s4common::replay(ctx, &plan(), doc)
 }
 
 pub fn prop() -> Prop {
@@ -13,11 +41,11 @@ pub fn prop() -> Prop {
         id: "C15",
         meta: Meta {
             level: "exploration",
-            rule: "not built",
-            assumptions: &[],
-            floors: &[],
+            rule: "seeded histories of retained / plain publishes with payload or empty (replacement chains, clears) at QoS 0-2 interleaved with new, repeated and shared subscriptions using literal and wildcard filters; M-broker keeps the retained map; every retain-flagged forward must be a current retained message owed to a new non-shared subscription, completeness at quiescent points. A case counts as distinct and non-trivial when its sequence of operation kinds is new and it reached at least one named corner state.",
+            assumptions: &["router stepped on one thread through verif hooks; link actors use the real LinkTx/LinkRx", "default segment sizes: backlog stays within retention"],
+            floors: &[("quiescent-point", 20), ("retained-replay", 100)],
         },
         run,
-        replay: None,
+        replay: Some(replay),
     }
 }
